@@ -35,3 +35,11 @@ Theorem C02_executable_decoder_is_the_proved_one : forall E x t fuel v,
   follow_ones E x t fuel v = decode E x t fuel v.
 Proof. exact follow_ones_decode. Qed.
 Print Assumptions C02_executable_decoder_is_the_proved_one.
+
+(* the checker that decides C02 (integer weights, exact) on every answer of the implementation *)
+From FP Require Import Checkers CheckersProofs.
+Theorem C02_explains_checker_correct : forall flow ignore routes,
+  explains_b flow ignore routes = true <->
+  forall e f, In (e, f) flow -> ~ In e ignore -> (explained_q routes e == f)%Q.
+Proof. exact explains_b_correct. Qed.
+Print Assumptions C02_explains_checker_correct.
